@@ -236,6 +236,15 @@ def run(ctx):
     )
     from .c11 import _r7_switch_histories
     _r7_switch_histories(ctx, r5)
+    r6 = ctx.rule(
+        "C19.R6",
+        "OPTCONF-PARSE (interpreted): `--optconf key=value` is split at the FIRST '=' only and handed to the YAML loader as the line "
+        "`key: value`, one line per option in the order given (utils.options_from_eqdelimstring and EqDelimStringParamType.convert "
+        "interpreted with yaml.safe_load as a recorder): values that contain '=' themselves, numbers in exponent notation, booleans "
+        "and inline mappings arrive as typed; a string without '=' is refused through click's failure path",
+        "PARSE", floor=2,
+    )
+    _optconf_parse(ctx, r6, repo)
     from . import c19cli
     c19cli.check_infer(ctx, r4, repo)
     c19cli.check_inspect(ctx, r4, repo)
@@ -507,3 +516,56 @@ def _file_vs_stdout(ctx, rid, f):
                 ctx.violated(rid, f, b, f"file and stdout arms use different JSON encoder options: stdout {oa}, file {ob}", expected=str(oa), found=str(ob), node=b)
             else:
                 ctx.holds(rid, f"{f.relpath}::{f.qualname}: {xa}", f"same object, options {oa}")
+
+
+def _optconf_parse(ctx, rid, repo):
+    from ..alg import Interp, Obj, PyFunc, RaisedInFragment, Undecided
+    from ..objmodel import Instance, World
+    UT = "src/pyhf/utils.py"
+    errs = (Undecided, KeyError, TypeError, ValueError, IndexError, AttributeError)
+    f = repo.func(UT, "options_from_eqdelimstring") if repo.has_func(UT, "options_from_eqdelimstring") else None
+    cls = repo.cls(UT, "EqDelimStringParamType")
+    if f is None or cls is None or "convert" not in cls.methods:
+        ctx.unrecognised(rid, repo.module(UT), "options_from_eqdelimstring / EqDelimStringParamType.convert", "not found")
+        return
+    ctx.touch(f)
+    ctx.touch(cls.methods["convert"])
+    docs = []
+    failed = []
+
+    def safe_load(a, k):
+        docs.append(a[0])
+        return Obj("LOADED", {"doc": a[0]}, closed=True)
+
+    def fail(recv, a, k):
+        failed.append(a[0] if a else None)
+        from ..alg import _PyRaise
+        raise _PyRaise("click.BadParameter")
+
+    try:
+        w = World({"__strict__": True, "safe_load": safe_load, "load": safe_load, ".fail": fail}, module_env={"yaml": Obj("yaml"), "click": Obj("click")})
+        w.add_func(f).add_class(cls)
+        opts = ["maxiter=1000", "tolerance=1e-3", "method=a=b", "solver_options={'ftol': 1e-06}", "verbose=true"]
+        out = w.call_func(f, [list(opts)], {})
+        want = "maxiter: 1000\ntolerance: 1e-3\nmethod: a=b\nsolver_options: {'ftol': 1e-06}\nverbose: true"
+        if not docs or docs[-1] != want or not (isinstance(out, Obj) and out.name == "LOADED"):
+            ctx.violated(rid, f, "options_from_eqdelimstring", "the options are not handed to the YAML loader as one `key: value` line each, split at the first '=' and in the order given (a value containing '=' is cut, keys and values are exchanged, or the loader's result is not what is returned)", expected=repr(want), found=repr(docs[-1] if docs else None), node=f.node)
+        else:
+            ctx.holds(rid, f"{UT}::options_from_eqdelimstring", f"{len(opts)} options -> {want!r} -> the loader's result")
+        inst = Instance(cls)
+        del docs[:]
+        one = w.call_method(inst, "convert", ["tolerance=1e-3", Obj("param"), Obj("ctx")])
+        ok_one = docs == ["tolerance: 1e-3"] and isinstance(one, Obj) and one.name == "LOADED"
+        refused = False
+        try:
+            w.call_method(inst, "convert", ["no_equal_sign", Obj("param"), Obj("ctx")])
+        except RaisedInFragment:
+            refused = True
+        if ok_one and refused:
+            ctx.holds(rid, f"{UT}::EqDelimStringParamType.convert", "one option -> one line through the same parser; a string without '=' is refused")
+        else:
+            ctx.violated(rid, cls.methods["convert"], "EqDelimStringParamType.convert", "the click parameter type does not parse a single `key=value` through the shared parser / does not refuse a string without '='", expected="['tolerance: 1e-3'] and a refusal", found=f"{docs} refused={refused}", node=cls.methods["convert"].node)
+    except RaisedInFragment as e:
+        ctx.violated(rid, f, "optconf parsing", f"raises {e.exc_name} on well-formed options", node=f.node)
+    except errs as e:
+        ctx.unrecognised(rid, f, "optconf parsing", f"not interpretable: {type(e).__name__}: {e}")
